@@ -613,10 +613,14 @@ Fixpoint res_check (n : nat) (fuel : nat) (nw : Z) (i : nat) (w : fw) : fw :=
   end.
 
 (** Maintainer._start_work_order / _finish_work_order on a PartProcessor target *)
+(** get_work_order_cost as the scripted processors answer it: a surcharge (their work-order duration) while they are shut down,
+    so that the answer depends on WHEN the maintainer asks (it asks before it starts the work) *)
+Definition wo_cost_now (x : dev) : Z := if d_shut x then d_wo_cost x + d_wo_dur x else d_wo_cost x.
+
 Definition maint_start (nw : Z) (mid : Z) (wo : worder) (w : fw) : fw :=
   let t := wo_target wo in
   let x := getd w t in
-  let w1 := maint_call w mid (m_start_pre nw wo (d_wo_cost x)) in
+  let w1 := maint_call w mid (m_start_pre nw wo (wo_cost_now x)) in
   let w2 := shutdown nw false (-1) w1 t in
   maint_call w2 mid (m_start_post nw wo (d_wo_dur x)).
 
